@@ -185,8 +185,11 @@ def run_scripted(case, rec):
         val = Scripted(stops=jnp.asarray(stops), crits=jnp.asarray(crits), improves=jnp.asarray(improves),
                        k=jnp.asarray(0), call_every=P)
         _LOG.clear()
+        verb = dict(print_loss_every=2) if (si + P) % 3 == 0 else dict(verbose=False)
+        if "verbose" not in verb:
+            rec.count("runs_with_default_verbosity")
         out = guard.call(jinns.solve, n_iter=n, init_params=Pb["params"], data=Pb["data"], loss=Pb["loss"], optimizer=opt,
-                         validation=val, verbose=False)
+                         validation=val, **verb)
         jax.effects_barrier()
         log = sorted(_LOG)
         _LOG.clear()
@@ -356,7 +359,8 @@ def run_insolve(case, rec):
     opt = nan_update_at(optax.sgd(5e-3), case.get("fault"))
     n = 9
     out = guard.call(jinns.solve, n_iter=n, init_params=Pb["params"], data=Pb["data"], loss=Pb["loss"], optimizer=opt,
-                     param_data=Pb["param_data"], obs_data=Pb["obs_data"], validation=val, verbose=False)
+                     param_data=Pb["param_data"], obs_data=Pb["obs_data"], validation=val,
+                     **(dict(print_loss_every=3) if case["seed"] % 3 == 0 else dict(verbose=False)))
     # the reference does NOT call the real ValidationLoss: it steps the validation generators itself, evaluates the
     # validation loss on its own successive batches and applies the automaton of Appendix A.4
     class RefVal:
